@@ -14,6 +14,8 @@ pub mod c15_c19;
 pub mod c20_wrappers;
 pub mod c21_collision;
 pub mod c22_reward;
+pub mod c23_precompiles;
+pub mod c24_backends;
 pub mod c25_safety;
 pub mod c26_eof;
 pub mod c27_bytecode;
@@ -34,6 +36,8 @@ pub fn dispatch(ctx: &Ctx) -> i32 {
         "C34" => c34_access::run(ctx),
         "C03" => c03_arith::run(ctx),
         "C04" => c04_jump::run(ctx),
+        "C23" => c23_precompiles::run(ctx),
+        "C24" => c24_backends::run(ctx),
         "C25" => c25_safety::run(ctx),
         "C26" => c26_eof::run(ctx),
         "C27" => c27_bytecode::run(ctx),
